@@ -471,4 +471,57 @@ def r9_argument_agreement(chk):
 
 
 
-RULES = [r1_file_reader, r2_variants, r3_index_first, r4_fallthrough, r5_recursion, r6_url_dispatch, r7_stateless_lookups, r8_result_plumbing, r9_argument_agreement]
+def r10_guard_polarity(chk):
+    """FileReader: stat/open only of an existing regular file; the size error only at the limit; an access error is
+    raised unless errors are ignored; sub-directories are entered only when they are directories and recursion is on"""
+    model = chk.model
+    from vt.cfg import CFG
+    chk.doc('C14.R10', 'FileReader, by reachability under a valuation of the predicates: os.stat(f)/open(f) only when '
+                       'os.path.exists(f) and os.path.isfile(f); the too-large error only when the read filled '
+                       'maxMibSize; the access error of getData/getSubdirs only when errors are not ignored; '
+                       'getSubdirs recurses only into os.path.isdir(d) and only when recursive')
+    ci = model.cls(LOCAL, 'FileReader')
+    o, fn = ci.find_method('getData')
+    mod = ci.mod
+    cfg = CFG(fn)
+    for c in walk_no_nested(fn):
+        if isinstance(c, ast.Call) and dotted_name(c.func) in ('open', 'os.stat') and c.args:
+            f = norm(c.args[0])
+            common.requires(chk, 'C14.R10', 'FileReader.getData/%s(%s)' % (dotted_name(c.func), f), cfg, mod,
+                            [cfg.node_of(common.stmt_of(c))],
+                            {'os.path.exists(%s)' % f: True, 'os.path.isfile(%s)' % f: True})
+    big = [x for x in walk_no_nested(fn) if isinstance(x, ast.Raise) and x.exc is not None and
+           norm(x.exc).startswith('IOError(')]
+    tests = [n for n in walk_no_nested(fn) if isinstance(n, ast.Compare) and 'self.maxMibSize' in norm(n)]
+    if tests:
+        common.requires(chk, 'C14.R10', 'FileReader.getData/too-large', cfg, mod, [cfg.node_of(x) for x in big],
+                        {norm(tests[0]): True}, 'a file is too large only when the bounded read was filled')
+        chk.ob('C14.R10', 'FileReader.getData/too-large-test', isinstance(tests[0].ops[0], (ast.Eq, ast.GtE)) and
+               norm(tests[0].left).startswith('len('), where(mod, tests[0]), norm(tests[0]))
+    acc = [x for x in walk_no_nested(fn) if isinstance(x, ast.Raise) and x.exc is not None and
+           isinstance(getattr(common.stmt_of(x), '_parent', None), (ast.If, ast.ExceptHandler)) and
+           'access error' in norm(x.exc)]
+    common.requires(chk, 'C14.R10', 'FileReader.getData/access-error', cfg, mod, [cfg.node_of(x) for x in acc],
+                    {'self._ignoreErrors': False}, 'access errors surface unless ignoreErrors')
+    o, gs = ci.find_method('getSubdirs')
+    cfg2 = CFG(gs)
+    p = [a.arg for a in gs.args.args]
+    rec = [c for c in walk_no_nested(gs) if isinstance(c, ast.Call) and norm(c.func) == 'self.getSubdirs']
+    for c in rec:
+        d = norm(c.args[0]) if c.args else '?'
+        common.requires(chk, 'C14.R10', 'FileReader.getSubdirs/recursion', cfg2, mod, [cfg2.node_of(common.stmt_of(c))],
+                        {'os.path.isdir(%s)' % d: True, p[2]: True})
+    err = [x for x in walk_no_nested(gs) if isinstance(x, ast.Raise) and x.exc is not None]
+    common.requires(chk, 'C14.R10', 'FileReader.getSubdirs/access-error', cfg2, mod, [cfg2.node_of(x) for x in err],
+                    {p[3]: False})
+    chk.floor('C14.R10', 12, 'guarded statements')
+
+
+
+def r11_wellformedness(chk):
+    rels = sorted(r for r in chk.model.modules if r.startswith(('pysmi/reader/',)))
+    common.wellformedness(chk, 'C14.R11', rels, floor=20)
+
+
+
+RULES = [r1_file_reader, r2_variants, r3_index_first, r4_fallthrough, r5_recursion, r6_url_dispatch, r7_stateless_lookups, r8_result_plumbing, r9_argument_agreement, r10_guard_polarity, r11_wellformedness]
